@@ -114,7 +114,17 @@ impl EntitiesRes {
         max_id: usize,
     ) -> EntitiesRes {
         let mut alloc = Allocator::default();
-        alloc.generations = vec![ZeroableGeneration(None); gen_cap];
+        // All-zero bytes are `ZeroableGeneration(None)` (niche of `NonZeroI32`);
+        // filled with one `write_bytes` so that a symbolic executor sees no loop
+        // over `gen_cap` entries.
+        let mut gens: Vec<ZeroableGeneration> = Vec::with_capacity(gen_cap);
+        // SAFETY: capacity reserved above; zero is a valid `ZeroableGeneration`.
+        unsafe {
+            std::ptr::write_bytes(gens.as_mut_ptr(), 0, gen_cap);
+            gens.set_len(gen_cap);
+        }
+        debug_assert!(gen_cap == 0 || gens[0] == ZeroableGeneration(None));
+        alloc.generations = gens;
         for s in slots {
             if (s.id as usize) < gen_cap {
                 alloc.generations[s.id as usize] =
